@@ -20,8 +20,11 @@ Proof. reflexivity. Qed.
 
 (* the transport: Service.NewStream hands the caller's context to host.NewStream; stream.WriteMsg
    and stream.ReadMsg select on ctx.Done() (pkg/p2p/libp2p/libp2p.go, stream.go) *)
-Lemma c05_src_transport : (c05_newstream_ctx, c05_write_ctx, c05_read_ctx) = (true, true, true).
-Proof. reflexivity. Qed.
+Lemma c05_src_transport :
+  (c05_newstream_ctx, c05_newstream_hdr_w, c05_newstream_hdr_r) = (true, [[bos "ctx"; bos "headers"]], [[bos "ctx"]]) /\
+  (c05_write_ctx, c05_write_ctx_err, c05_write_async, c05_write_make) = (true, true, true, [[bos "chan error"; bos "1"]]) /\
+  (c05_read_ctx, c05_read_ctx_err, c05_read_async, c05_read_make) = (true, true, true, [[bos "chan result"; bos "1"]]).
+Proof. repeat split; reflexivity. Qed.
 
 (* --- decidable equalities ------------------------------------------------------------------ *)
 Lemma bid_eqb_eq a b : bid_eqb a b = true <-> a = b.
